@@ -11,6 +11,7 @@
    sqrt/inversesqrt lowp need x >= 0; round4 is PARTIAL: off the ties k + 1/2 (at a tie the rounding of |x| + (1/2 - 2^-25)
    decides, which the real semantics does not model; the check runs round/floor/ceil on all 2^32 binary32 values instead). *)
 Require Import ZArith List String Reals Lra Lia.
+Import ListNotations.
 From GLMV Require Import Expr SemR Cat.
 From W Require Import A_C03_defs A_C03_int Gen_C03_pure Gen_C03_purew Gen_C03_sse2 Gen_C03_sse3 Gen_C03_ssse3 Gen_C03_sse41 Gen_C03_sse42 Gen_C03_avx Gen_C03_avx2 Gen_C03_fma Gen_C03_sse2w Gen_C03_avx2w.
 From W Require P_C03_sse2_pure P_C03_sse3_sse2 P_C03_ssse3_sse3 P_C03_sse41_pure P_C03_sse42_sse41 P_C03_avx_sse41 P_C03_avx2_avx P_C03_fma_avx2 P_C03_pure_purew P_C03_sse2w_sse2 P_C03_avx2w_avx2.
@@ -34,6 +35,14 @@ Theorem C03_sse2_wxyz : simd_means_pure Gen_C03_sse2w.catalogue Gen_C03_purew.ca
 Proof. exact (both_trans _ _ _ (conj P_C03_sse2w_sse2.edge P_C03_sse2w_sse2.edgeZ) (both_trans _ _ _ C03_sse2 (conj P_C03_pure_purew.edge P_C03_pure_purew.edgeZ))). Qed.
 Theorem C03_avx2_wxyz : simd_means_pure Gen_C03_avx2w.catalogue Gen_C03_purew.catalogue.
 Proof. exact (both_trans _ _ _ (conj P_C03_avx2w_avx2.edge P_C03_avx2w_avx2.edgeZ) (both_trans _ _ _ C03_avx2 (conj P_C03_pure_purew.edge P_C03_pure_purew.edgeZ))). Qed.
+(* only the lowp entries contain a hardware reciprocal / reciprocal square root, at every level *)
+Theorem C03_only_lowp_approximates :
+  forallb only_lowp_approximates [Gen_C03_sse2.catalogue; Gen_C03_sse3.catalogue; Gen_C03_ssse3.catalogue; Gen_C03_sse41.catalogue; Gen_C03_sse42.catalogue; Gen_C03_avx.catalogue;
+                                  Gen_C03_avx2.catalogue; Gen_C03_fma.catalogue; Gen_C03_sse2w.catalogue; Gen_C03_avx2w.catalogue] = true.
+Proof. vm_compute. reflexivity. Qed.
+(* and the lowp entries do: the statement above is not vacuous *)
+Example C03_lowp_entries_do_approximate : existsb (fun e => andb (is_lowp_name (fst e)) (negb (approx_free_tree (snd e)))) Gen_C03_sse2.catalogue = true.
+Proof. vm_compute. reflexivity. Qed.
 (* the statement is about all 160 entries (35 of them integer), none untraceable *)
 Theorem C03_catalogue_size : List.length names = 160%nat. Proof. reflexivity. Qed.
 (* non-vacuity: the premises of the domain-restricted entries are satisfiable, and a compared value is defined *)
